@@ -438,8 +438,9 @@ def seq_env(stmts, upto=None, env=None):
         if s is upto:
             break
         if isinstance(s, ast.Assign) and len(s.targets) == 1 and isinstance(s.targets[0], ast.Name):
-            if isinstance(s.value, (ast.List, ast.Dict, ast.Set)) and not getattr(s.value, "elts", getattr(s.value, "keys", None)):
-                env.pop(s.targets[0].id, None)  # empty mutable accumulator: keep the name opaque
+            if (isinstance(s.value, (ast.List, ast.Dict, ast.Set)) and not getattr(s.value, "elts", getattr(s.value, "keys", None))) or \
+                    (isinstance(s.value, ast.Call) and isinstance(s.value.func, ast.Name) and s.value.func.id in ("list", "dict", "set")):
+                env.pop(s.targets[0].id, None)  # mutable accumulator: keep the name opaque
             else:
                 env[s.targets[0].id] = _SubstEnv(env).visit(copy.deepcopy(s.value))
         elif isinstance(s, ast.Assign) and len(s.targets) == 1 and isinstance(s.targets[0], (ast.Tuple, ast.List)) \
@@ -682,3 +683,33 @@ def branch_of(pm, node, ifnode):
             if any(x is node for x in ast.walk(s)):
                 return field
     return None
+
+
+# ----------------------------------------------------------------------------- matrix product normal form
+def matnf(prog, fi, e):
+    """normal form of a matrix expression built from dot/@, inv/pinv, solve and .T: list of (atom expr, inverted, transposed).
+    (AB)^-1 = B^-1 A^-1, (AB)^T = B^T A^T, solve(A, B) = A^-1 B.  Returns None if e contains another matrix operation."""
+    if isinstance(e, ast.BinOp) and isinstance(e.op, ast.MatMult):
+        a, b = matnf(prog, fi, e.left), matnf(prog, fi, e.right)
+        return None if a is None or b is None else a + b
+    if isinstance(e, ast.Attribute) and e.attr == "T":
+        a = matnf(prog, fi, e.value)
+        return None if a is None else [(x, i, not t) for x, i, t in reversed(a)]
+    if isinstance(e, ast.Call):
+        nm = callee_name(prog, fi, e)
+        if nm in ("numpy.dot", "numpy.matmul") and len(e.args) == 2:
+            a, b = matnf(prog, fi, e.args[0]), matnf(prog, fi, e.args[1])
+            return None if a is None or b is None else a + b
+        if nm in ("numpy.linalg.inv", "numpy.linalg.pinv", "scipy.linalg.inv", "scipy.linalg.pinv") and e.args:
+            a = matnf(prog, fi, e.args[0])
+            return None if a is None else [(x, not i, t) for x, i, t in reversed(a)]
+        if nm in ("numpy.linalg.solve", "scipy.linalg.solve") and len(e.args) == 2:
+            a, b = matnf(prog, fi, e.args[0]), matnf(prog, fi, e.args[1])
+            return None if a is None or b is None else [(x, not i, t) for x, i, t in reversed(a)] + b
+        if nm in ("numpy.transpose",) and len(e.args) == 1:
+            a = matnf(prog, fi, e.args[0])
+            return None if a is None else [(x, i, not t) for x, i, t in reversed(a)]
+        if nm in (".dot",) and len(e.args) == 1 and isinstance(e.func, ast.Attribute):
+            a, b = matnf(prog, fi, e.func.value), matnf(prog, fi, e.args[0])
+            return None if a is None or b is None else a + b
+    return [(e, False, False)]
